@@ -642,7 +642,7 @@ Proof.
   - constructor.
   - intros p [[]|[]].
   - intros p k [[]|[]].
-  - exact I4.
+  - intros k [].
   - intros p i [[]|[]].
   - exact I6.
   - intros p [].
